@@ -1,4 +1,6 @@
 """C01 -- J1939-21 transport delivers every accepted message intact, exactly once."""
+from fractions import Fraction
+
 from ..runner import Job
 from ..symx import sym_eq_seq, sym_and, sym_or, sym_not, T
 from .. import world as W
@@ -154,6 +156,33 @@ def h_xfer(ex, L, kind='p2p', shape='single', L2=0, kind2='p2p', reent=None, win
     ex.witness()
 
 
+def h_multi(ex, transfers, windows=(1, 2, 3, 1), dll='j1939-21', explore=True):
+    """2-4 stacks, any mix of simultaneous transfers on distinct (SA, DA) pairs: transfers = [[src, dst|'G', L], ...]
+    over stacks A..D; all submitted at once; all interleavings (explore) or the canonical schedule"""
+    w = W.World(ex, mode='interleave')
+    w.branching = bool(explore)
+    names = sorted(set([t[0] for t in transfers] + [t[1] for t in transfers if t[1] != 'G']))
+    addr = {'A': 0x10, 'B': 0x20, 'C': 0x30, 'D': 0x40}
+    st = {nm: Stack(w, nm, addr[nm], dll=dll, max_cmdt_packets=windows['ABCD'.index(nm)]) for nm in names}
+    by_addr = {s.addr: s for s in st.values()}
+    w.run(until=T('1/100'))
+    msgs = []
+    for i, (s_, d_, L) in enumerate(transfers):
+        kind = 'pdu2' if d_ == 'G' else 'p2p'
+        m = Msg(ex, 'm%d' % i, st[s_], st[d_] if d_ != 'G' else st[s_], L, kind, dll)
+        msgs.append(m)
+    for m in msgs:
+        ex.claim('accepted', m.send() is True)
+    seg = 7 if dll == 'j1939-21' else 60
+    w.run(until=w.now + T(3) + Fraction(6, 100) * sum((m.L + seg - 1) // seg for m in msgs))
+    for s in st.values():
+        check_listener(ex, s, s.rx, by_addr, msgs, 'ca', dll)
+    ex.claim('job_threads_alive', all(s.alive() for s in st.values()))
+    ex.claim('no_notify_exception', all(not s.node.notify_errors for s in st.values()))
+    ex.observe('rx', [[s.name, [[d['pgn'], d['sa'], d['data']] for d in s.rx]] for s in st.values()])
+    ex.witness()
+
+
 QUICK_L = [0, 1, 7, 8, 9, 13, 14, 15, 21, 22, 28, 29]
 
 
@@ -182,6 +211,13 @@ def jobs(tier):
         J(L=9, kind='p2p', shape='twoway', L2=15, kind2='p2p', windows=(3, 1))
         J(L=15, kind='p2p', shape='fanout', L2=9, kind2='pdu2', windows=(2, 2))
         J(L=9, kind='p2p', shape='twoway', L2=9, kind2='p2p', reent='all', windows=(1, 1))
+        # 3-4 stacks, mixes of simultaneous transfers on distinct pairs (canonical round-robin schedule; all
+        # interleavings for two independent pairs)
+        for tr in ([['A', 'B', 9], ['C', 'D', 9], ['B', 'A', 15]], [['A', 'B', 15], ['C', 'A', 9], ['B', 'G', 9]],
+                   [['A', 'B', 9], ['B', 'C', 16], ['C', 'D', 22], ['D', 'A', 29]], [['A', 'B', 20], ['A', 'C', 20], ['A', 'D', 20], ['A', 'G', 20]],
+                   [['B', 'A', 20], ['C', 'A', 21], ['D', 'A', 22]]):
+            out.append(Job('C01', 'c01:h_multi', {'transfers': tr, 'explore': False}, W=40, wall=300, validate=1))
+        out.append(Job('C01', 'c01:h_multi', {'transfers': [['A', 'B', 9], ['C', 'D', 9]], 'explore': True}, W=40, wall=600, max_paths=100000, validate=1))
         out.append(Job('C01', 'c02:h_staggered', {'dll': 'j1939-21', 'L1': 20, 'L2': 12, 'windows': [1, 1]}, W=40, wall=120, validate=1))
         out.append(Job('C01', 'c02:h_staggered', {'dll': 'j1939-21', 'L1': 30, 'L2': 9, 'windows': [2, 3]}, W=40, wall=120, validate=1))
     else:
@@ -210,7 +246,7 @@ def meta(tier):
                    'payload bytes, priority, data page, PDU format (PDU1 class 0..239 minus protocol PGNs / PDU2 class 240..255 with symbolic group extension): symbolic',
                    'max_cmdt_packets of both stacks symbolic 1..255 (concrete classes for the 255-packet transfers and most concurrent shapes)',
                    'schedules: all interleavings of frame deliveries and job passes (DESIGN 3, reductions 1-3); re-entrant delivery: none / all frames / one frame at a symbolic index',
-                   '3 stacks (originator, responder, bystander with CA + unfiltered ECU listener); concurrent shapes: A->B || B->A, A->B || A->global',
+                   '3 stacks (originator, responder, bystander with CA + unfiltered ECU listener); concurrent shapes: A->B || B->A, A->B || A->global', '3-4 stacks with 3-4 simultaneous transfers on distinct pairs incl. fan-in / fan-out / ring (canonical round-robin schedule; all interleavings for two independent pairs)',
                    'addresses (0x10, 0x20, 0x30); for some shapes also (0, 0x20, 0x30), (0x10, 0, 0x30), (253, 1, 0)'],
         'outside': ['lengths 121..1777 except the listed ones', 'address values other than the listed ones',
                     'mixes of re-entrant and delayed frames beyond one re-entrant frame',
